@@ -259,7 +259,7 @@ def run(ctx):
     else:
         B = hirq.Body(f, f.hir[body])
         ctx.analysed['bodies'].add(body)
-        outs = [o for o in absx.Interp(f, B, unroll=1).run() if o.kind in ('val', 'ret') and o.val[0] == 'ctor' and o.val[1] == 'Ok']
+        outs = [o for o in absx.Interp(f, B, unroll=1, result_combinators=True).run() if o.kind in ('val', 'ret') and o.val[0] == 'ctor' and o.val[1] == 'Ok']
         seen = set()
         for o in outs:
             rem = o.val[2][0][1][0]
